@@ -19,5 +19,6 @@ import (
 	_ "fxmc/props/c15"
 	_ "fxmc/props/c16"
 	_ "fxmc/props/c18"
+	_ "fxmc/props/c19"
 	_ "fxmc/props/c20"
 )
